@@ -57,7 +57,7 @@ def run(ctx):
         k = (("empty" if p["px"] == 0 else "shallow1x2" if p.get("pb") else "shallow%d" % p["d1"] if p["d1"] else "diverged" if p["local"] else "partial"),
              s["scn"]["depth"], s["scn"]["tags"] if not p.get("pb") else s["scn"]["refspec"] + ("/same-tip" if p["px"] == len(s["scn"]["dag"]) else ""))
         strata.setdefault(k, []).append(s)
-    want = 900 if ctx.thorough else 70
+    want = 900 if ctx.thorough else 50
     picked = []
     while len(picked) < want and any(strata.values()):
         for k in sorted(strata):
@@ -90,7 +90,7 @@ def run(ctx):
     # implementation-level model of the negotiation
     negs = []
     for (n, dags, win, ma) in ([(4, "NDags4", 2, "TRUE"), (4, "NDags4", 1, "FALSE"), (5, "NDags5", 2, "TRUE"), (4, "NDags4", 1, "TRUE")]
-                               if ctx.thorough else [(3, "NDags3", 2, "TRUE"), (3, "NDags3", 1, "FALSE")]):
+                               if ctx.thorough else [(3, "NDags3", 2, "TRUE")]):
         rn = ctx.tlc("MCNegotiate", cfg_text=NEG % (n, dags, win, ma), timeout=1500, cfg="MCNegotiate_%d_%d_%s.cfg" % (n, win, ma))
         negs.append({"N": n, "window": win, "multi_ack": ma, "distinct": rn.distinct})
     vsrv = ctx.build(pkg="vsrv")
